@@ -217,7 +217,7 @@ def main(tier, seed, replay=None):
     r2 = run_tlc('MC_scope', cfg='MC_scope.cfg',
                  cfg_text=config(big, 9, 3, 2),
                  modules={'MC_scope': model(big)}, workers=1, heap='4g',
-                 simulate=3000 if tier == 'quick' else 40000, depth=200,
+                 simulate=3000 if tier == 'quick' else 15000, depth=200,
                  seed=seed + 23, must_succeed=False)
     rep.add_tlc(r2)
     for r0 in (r, r2):
